@@ -25,6 +25,9 @@ type replayTemplate struct {
 
 var replayDir = "/verif/replay"
 
+// repoDir: the tree under verification (set from -dir)
+var repoDir = "/repo"
+
 var replayTemplates = []*replayTemplate{
 	{
 		name: "req_stale_retry_timer.go.tmpl",
@@ -129,12 +132,12 @@ func runReplay(pkgDir, tmpl string, subst map[string]string, test string) (bool,
 	defer os.RemoveAll(work)
 	tf := filepath.Join(work, "zz_replay_test.go")
 	os.WriteFile(tf, []byte(text), 0o644)
-	ov := map[string]map[string]string{"Replace": {filepath.Join("/repo", pkgDir, "zz_replay_test.go"): tf}}
+	ov := map[string]map[string]string{"Replace": {filepath.Join(repoDir, pkgDir, "zz_replay_test.go"): tf}}
 	ob, _ := json.Marshal(ov)
 	of := filepath.Join(work, "overlay.json")
 	os.WriteFile(of, ob, 0o644)
 	cmd := exec.Command("go", "test", "-overlay", of, "-vet=off", "-count=1", "-timeout", "60s", "-run", "^"+test+"$", "./"+pkgDir)
-	cmd.Dir = "/repo"
+	cmd.Dir = repoDir
 	cmd.Env = append(os.Environ(), "GOFLAGS=-mod=mod", "GOPROXY=off", "GOSUMDB=off", "GOTOOLCHAIN=local")
 	done := make(chan struct{})
 	var out []byte
